@@ -18,6 +18,19 @@ CHECKS = {
         technique="static table reconstruction (abstract evaluation of spec modules) + AST def-use patterns",
         design="4/C17",
     ),
+    "C18": dict(
+        category="proof",
+        text="N1: TPM_RC.__format__ and TPM_RC.attributes are converted into decision trees by a symbolic walk of their "
+             "bodies (masks folded from module constants, helpers checked to mean all-set/all-clear); all 3073 values of "
+             "the low 12 bits in the property's domain are routed through both trees: the text-form leaf must equal the "
+             "reference written from the statement, the bit rows must partition 0xFFFFFFFF and use the same table, index "
+             "mask, number mask and shift as the text form. N2: the three name tables equal pinned/rc_tables.json, no "
+             "duplicate keys. The whole domain is finite and enumerated.",
+        note="trusted: CPython ast; constant folding of tpm_rc.py; dict/defaultdict lookup semantics. TPM 1.2-style "
+             "codes (bits 7 and 8 clear) are outside the property's domain and not judged.",
+        technique="symbolic path enumeration of the two classifier methods + exhaustive finite-domain comparison with a reference tree",
+        design="4/C18",
+    ),
     "C20": dict(
         category="proof",
         text="Exhaustive evaluation of coherence rules T1-T5 over all 248 structure types, Command/Response and "
